@@ -21,7 +21,8 @@
 (***************************************************************************)
 EXTENDS Integers, Sequences, FiniteSets, TLC, Json
 
-CONSTANTS MaxNodes, ZMode, Rich  \* Rich: opacity and overflow flags, absolute positioning; ZMode: "small" | "full"
+CONSTANTS MaxNodes, ZMode, Rich, \* Rich: opacity and overflow flags, absolute positioning; ZMode: "small" | "full"
+          Wide                   \* TRUE: many sibling stacking contexts (all children of the root, positioned, few z values): ties in tree order
 Zs == IF ZMode = "small" THEN {-1, 1} ELSE {-1, 0, 1, 2}
 
 Auto == 99
@@ -30,7 +31,8 @@ vars == <<nodes, stack, out, phase>>
 
 Kinds == {"block", "inline", "iblock", "float"}
 Poss == IF Rich THEN {"static", "relative", "absolute"} ELSE {"static", "relative"}
-Node(n) == [parent : 0..(n - 1), kind : Kinds, pos : Poss, z : Zs \cup {Auto}, opac : (IF Rich THEN BOOLEAN ELSE {FALSE}), clip : (IF Rich THEN BOOLEAN ELSE {FALSE})]
+Node(n) == IF Wide THEN [parent : {0}, kind : {"block"}, pos : {"relative"}, z : {1, 2}, opac : {FALSE}, clip : {FALSE}]
+           ELSE [parent : 0..(n - 1), kind : Kinds, pos : Poss, z : Zs \cup {Auto}, opac : (IF Rich THEN BOOLEAN ELSE {FALSE}), clip : (IF Rich THEN BOOLEAN ELSE {FALSE})]
 N == Len(nodes)
 Par(i) == nodes[i].parent
 Kind(i) == IF i = 0 THEN "block" ELSE nodes[i].kind
@@ -102,7 +104,7 @@ AddNode == /\ phase = "build" /\ Len(nodes) < MaxNodes
                  /\ ~(x.kind = "float" /\ x.pos = "absolute")                                    \* (float computes to none)
                  /\ nodes' = Append(nodes, x)
            /\ UNCHANGED <<stack, out, phase>>
-EndBuild == /\ phase = "build" /\ nodes # <<>> /\ phase' = "paint" /\ stack' = <<[t |-> "ctx", n |-> 0]>> /\ UNCHANGED <<nodes, out>>
+EndBuild == /\ phase = "build" /\ nodes # <<>> /\ (Wide => Len(nodes) = MaxNodes) /\ phase' = "paint" /\ stack' = <<[t |-> "ctx", n |-> 0]>> /\ UNCHANGED <<nodes, out>>
 
 \* ---- the painter: a stack machine (top of the stack = Head)
 Task(t, i) == [t |-> t, n |-> i]
